@@ -196,6 +196,30 @@ pub fn try_sign(hash: &str, blob: &[u8], msg: &[u8]) -> (Out<Vec<u8>>, Out<Vec<u
     })
 }
 
+/// ONE SigningKey object: sign `msg1` with the key `first`, then overwrite the object's bytes with
+/// `second` (through as_mut_slice) and sign `msg2`: (second signature, key bytes afterwards)
+pub fn try_sign_reused(hash: &str, first: &[u8], msg1: &[u8], second: &[u8], msg2: &[u8]) -> (Out<Vec<u8>>, Out<Vec<u8>>) {
+    use hbs_lms::signature::SignerMut;
+    with_hash!(hash, H => {
+        let mut key_after: Out<Vec<u8>> = Out::Err;
+        let r = catch_res(|| {
+            let mut sk = hbs_lms::SigningKey::<H>::from_bytes(first)?;
+            let _ = sk.try_sign(msg1);
+            if sk.as_slice().len() != second.len() {
+                return Err(hbs_lms::signature::Error::new());
+            }
+            sk.as_mut_slice().copy_from_slice(second);
+            let r = sk.try_sign(msg2).map(|s| s.as_ref().to_vec());
+            key_after = Out::Ok(sk.as_slice().to_vec());
+            r
+        });
+        if r == Out::Panic {
+            key_after = Out::Panic;
+        }
+        (r, key_after)
+    })
+}
+
 pub fn lifetime(hash: &str, blob: &[u8]) -> Out<u64> {
     with_hash!(hash, H => catch_res(|| hbs_lms::SigningKey::<H>::from_bytes(blob)?.get_lifetime()))
 }
